@@ -514,32 +514,42 @@ def _flag_off_sites(ctx):
         if not (m.relpath.startswith("orm/") or m.relpath.startswith("ext/")) or not any(c in m.source for c in carriers):
             continue
         pm = m.parents()
+        mdefs = _module_defs(m)
+        # a module constant that carries the flag WITH its justification (LOAD_AGAINST_COMMITTED in the same set) is read
+        # like a once-bound local: judged where it is used.  (One without is reported where it is defined: its uses in
+        # other modules cannot be enumerated.)
+        mod_c = {nm: v for nm, v in mdefs.items() if any(leaf in carriers for leaf, _ in _flag_leaves(v, mdefs)) and _flag_site_reason(m, None, v)}
         local_cache: Dict[int, Dict[str, ast.expr]] = {}
 
         def local_carriers(fn):
-            """{once-bound local of fn: its value} for locals whose value carries the flag"""
+            """{once-bound local of fn (or justified module constant not shadowed in fn): its value} for names whose value
+            carries the flag"""
             if fn is None:
                 return {}
             hit = local_cache.get(id(fn))
             if hit is None:
                 defs = single_defs(fn)
                 hit = {nm: v for nm, v in defs.items() if any(leaf in carriers for leaf, _ in _flag_leaves(v, defs))}
+                if mod_c:
+                    shadow = {x.arg for x in fn.args.posonlyargs + fn.args.args + fn.args.kwonlyargs} | {nm for nm, _, _ in name_stores(fn)}
+                    hit = dict({nm: v for nm, v in mod_c.items() if nm not in shadow}, **hit)
                 local_cache[id(fn)] = hit
             return hit
 
-        mdefs = _module_defs(m)
-        mod_c = {nm: v for nm, v in mdefs.items() if any(leaf in carriers for leaf, _ in _flag_leaves(v, mdefs))}
+        # functions that mention a carrier at all (only they can have locals that carry the flag)
+        hot = set()
+        for n in ast.walk(m.tree):
+            if isinstance(n, (ast.Name, ast.Attribute)) and (_terminal(n) in carriers or _terminal(n) in mod_c):
+                fn = _enclosing_function(pm, n)
+                if fn is not None:
+                    hot.add(id(fn))
         for n in ast.walk(m.tree):
             if not isinstance(n, (ast.Name, ast.Attribute)) or not isinstance(n.ctx, ast.Load):
                 continue
+            if _terminal(n) not in carriers and not isinstance(n, ast.Name):
+                continue
             fn = _enclosing_function(pm, n)
-            loc_c = local_carriers(fn)
-            if fn is not None:
-                # a module constant that carries the flag WITH its justification (LOAD_AGAINST_COMMITTED in the same
-                # set) is read like a once-bound local: judged where it is used.  (One without is reported where it is
-                # defined: its uses in other modules cannot be enumerated.)
-                shadow = {x.arg for x in fn.args.posonlyargs + fn.args.args + fn.args.kwonlyargs} | {nm for nm, _, _ in name_stores(fn)}
-                loc_c = dict({nm: v for nm, v in mod_c.items() if nm not in shadow and _flag_site_reason(m, None, v)}, **loc_c)
+            loc_c = local_carriers(fn) if fn is not None and id(fn) in hot else {}
             is_local = isinstance(n, ast.Name) and n.id in loc_c
             if _terminal(n) not in carriers and not is_local:
                 continue
@@ -1098,3 +1108,8 @@ R.mutant("pre-exec-autoflush-early-return-for-post-load-statements", CONTEXT, su
     _PRE_GUARD, "        if load_options._sa_top_level_orm_context is not None:\n            return statement, execution_options, params\n"
                 "        if not is_pre_event and load_options._autoflush:\n            session._autoflush()\n\n"
                 "        return statement, execution_options, params\n", count=2), "C47-R1")
+R.mutant("module-constant-adds-no-autoflush-without-committed-flag", STRAT, chain(
+    sub("from ..sql.selectable import Select\n\nif TYPE_CHECKING:\n",
+        "from ..sql.selectable import Select\n\n_PROBE_ONLY = PassiveFlag.PASSIVE_OFF | PassiveFlag.NO_AUTOFLUSH\n\nif TYPE_CHECKING:\n"),
+    sub(_PROBE_ARGS, "                primary_key_identity,\n                passive=passive | _PROBE_ONLY,\n                lazy_loaded_from=state,\n"),
+), "C47-R5")
